@@ -194,7 +194,7 @@ where
                     .parse_next(input)
             }
             Some('(') if lot.note.is_none() => {
-                let note = paren(take_till(1.., ['(', ')', '@'])).parse_next(input)?;
+                let note = paren(take_till(0.., ['(', ')', '@'])).parse_next(input)?;
                 lot.note = Some(note.into());
             }
             Some('(') => {
@@ -469,6 +469,20 @@ mod tests {
         assert_eq!(
             expect_parse_ok(posting_account, input),
             (";next_token", Cow::Borrowed("ピカチュウ"))
+        );
+    }
+
+    #[test]
+    fn lot_accepts_empty_note() {
+        assert_eq!(
+            expect_parse_ok(preceded(space0, lot), " ()"),
+            (
+                "",
+                syntax::plain::Lot {
+                    note: Some("".into()),
+                    ..syntax::plain::Lot::default()
+                }
+            )
         );
     }
 
